@@ -134,6 +134,30 @@ def worker_init(ctx):
             raise HarnessError("template model read failed")
         models[name] = rr["result"]
     ctx.memo["template_models"] = models
+    if ctx.prop == "C08" and ctx.tier == "thorough" and "auditor" not in ctx.memo:
+        ctx.memo["auditor"] = Auditor()
+
+
+class Auditor:
+    """Separate interpreter under another PYTHONHASHSEED; reads scratch databases only (thorough tier)."""
+
+    def __init__(self):
+        import subprocess
+        from sim.core import driver
+        e = driver._worker_env("C08", hashseed="987654321")
+        self.p = subprocess.Popen([driver.PYTHON, "-u", os.path.join(env.VERIF_ROOT, "sim", "auditor_main.py")],
+                                  stdin=subprocess.PIPE, stdout=subprocess.PIPE, env=e, cwd=env.VERIF_ROOT, text=True, bufsize=1)
+        hello = json.loads(self.p.stdout.readline() or "{}")
+        if not hello.get("ok") or hello.get("hashseed") != "987654321":
+            raise HarnessError("auditor failed to start: " + json.dumps(hello))
+
+    def read(self, dbmap, ops):
+        self.p.stdin.write(json.dumps({"dbmap": dbmap, "ops": ops}) + "\n")
+        self.p.stdin.flush()
+        line = self.p.stdout.readline()
+        if not line:
+            raise HarnessError("auditor died")
+        return json.loads(line)["replies"]
 
 
 def new_file_model(ctx, template):
@@ -740,6 +764,22 @@ class Run:
                     self.count("audit-retrievals")
         finally:
             s.kill()
+        aud = self.ctx.memo.get("auditor")
+        if aud is not None and self.viol is None:
+            for f in sorted(self.dbmap):
+                fm = self.models[f]
+                ops = [{"op": "adsorbates_from_db", "db": f}, {"op": "materials_from_db", "db": f},
+                       {"op": "isotherms_from_db", "db": f, "criteria": {}}]
+                for op, reply in zip(ops, aud.read(self.dbmap, ops)):
+                    if self.viol is not None:
+                        return
+                    opdesc = self.describe(op)
+                    if reply["outcome"] != "ok":
+                        self.fail("valid-operation-refused", f"op={opdesc} reason=retrieve outcome={reply['outcome']} ctx=auditor",
+                                  {"msg": reply.get("msg")})
+                        return
+                    self.check_retrieval(op, reply, fm, opdesc, where="auditor-other-hashseed")
+                    self.count("auditor-retrievals")
 
 
 def _dump_diff(a, b):
